@@ -4,15 +4,13 @@ CONSTANTS
   Lens = {100, 7340032}
   MaxSizes = {20971519, 20971520, 25165824}
   SegMax = 10485760
-  MaxBatches = 2
-  MaxOps = 0
+  MaxBatches = 6
+  MaxOps = 14
   Menu = {"init", "delete", "update", "enq", "deliver", "track", "untrack", "storeset", "closeall", "crash", "start"}
   Prefix <- NoPrefix
   Refusals = {"exists", "notfound", "toosmall", "full", "startup"}
   KickOnOpen = TRUE
   InitLeavesDir = TRUE
-  Record = FALSE
-INVARIANTS TypeOK PendingIsWant OpenHasDir DownHasNoQueue NoStrandedBatch HeldHasBatch SizesAreDiskUsage
-PROPERTIES StartContract FailedStartKeeps DownKeepsDisk RefusalChangesNothing DeleteContract UpdateContract EnqContract DeliverContract
-VIEW View
+  Record = TRUE
+INVARIANTS TypeOK PendingIsWant NoStrandedBatch
 CHECK_DEADLOCK FALSE
